@@ -812,6 +812,60 @@ class QGen:
             parts.append(str(version))
         return '.'.join(parts)
 
+    def source_table(self):
+        """a data source for a model: a table of an integration, of a PROJECT (a view), of the default namespace, or
+        schema-qualified — in any spelling.  -> sql text"""
+        rng = self.rng
+        sp = self.cat.spec()
+        kind = rng.choice(['integration', 'integration', 'project', 'project', 'default', 'schema'])
+        if kind == 'project':
+            proj = rng.choice(sorted(sp['projects']))
+            return '%s.%s' % (spell(rng, proj) if self.spellings else proj, rng.choice(['v1', 'View2']))
+        if kind == 'default' and self.cat.dns:
+            return rng.choice(['v1', 't', 'View2'])
+        tr = self.tref(alias=False)
+        if kind == 'schema':
+            q = tr['qual'] or tr['db']
+            return '%s.%s.%s' % (q, rng.choice(['sch', 'public']), tr['table'])
+        return tr['sql']
+
+    def dml_model(self):
+        """every DML form around a SELECT that joins a data source with a model — incl. the 'dbt' form
+        `(select * from SRC) JOIN <time-series model>` —, sources of every kind (see `source_table`)"""
+        rng = self.rng
+        src = self.source_table()
+        ts = rng.random() < 0.6
+        model = self.model_name(ts=ts) or self.model_name(ts=False)
+        if model is None:
+            return None, None
+        shape = rng.choice(['dbt', 'dbt', 'join', 'join-where', 'sub-join'])
+        if shape == 'dbt':
+            w = rng.choice(['', ' where ta.y > 0', " where ta.y > '2020-01-01'"])
+            sel = 'select * from (select * from %s as ta%s) join %s as tb' % (src, w, model)
+        elif shape == 'join':
+            sel = 'select * from %s as ta join %s as tb' % (src, model)
+        elif shape == 'join-where':
+            sel = 'select * from %s as ta join %s as tb where ta.y > 0' % (src, model)
+        else:
+            sel = 'select * from (select * from %s) as ta join %s as tb' % (src, model)
+        tgt = self.tref(alias=False)
+        form = rng.choice(['plain', 'create', 'create', 'insert-paren', 'insert-paren', 'insert', 'insert-cols', 'update-from', 'delete-sub'])
+        self.features.add('dml-model/%s/%s/%s' % (form, shape, 'ts' if ts and self.model_name(ts=True) else 'plain'))
+        t = tgt['sql']
+        if form == 'plain':
+            return sel, 'select'
+        if form == 'create':
+            return 'create table %s (%s)' % (t, sel), 'create'
+        if form == 'insert-paren':
+            return 'insert into %s (%s)' % (t, sel), 'insert'
+        if form == 'insert':
+            return 'insert into %s %s' % (t, sel), 'insert'
+        if form == 'insert-cols':
+            return 'insert into %s (id) %s' % (t, sel), 'insert'
+        if form == 'update-from':
+            return 'update %s set %s = 1 from (%s) as src where src.id = %s.id' % (t, tgt['cols'][1], sel, tgt['table']), 'update'
+        return 'delete from %s where id in (select id from %s where y > 0)' % (t, src), 'delete'
+
     def multi_model(self):
         """a statement with SEVERAL model references that differ in version / spelling, on the paths that take the
         version from get_predictor (select from a model, time-series join) and on the ordinary join path"""
@@ -954,6 +1008,20 @@ def real_table_info(cat, parts, alias):
         return [item.integration, list(item.table.parts), [list(a) for a in item.aliases], bool(item.bare_name)]
     except Exception as e:
         return None if exc_class(e) == 'planningError' else ('EXC', exc_class(e))
+
+
+def real_dbt_source(cat, parts, integration):
+    """`adapt_dbt_query` on `select * from (select * from <parts> as ta) join m as tb` with the target integration of the
+    enclosing CREATE TABLE / INSERT / UPDATE (None outside): the parts of the data source afterwards"""
+    from mindsdb_sql.parser.ast import Identifier, Select, Star, Join
+    from mindsdb_sql.planner.plan_join_ts import PlanJoinTSPredictorQuery
+    inner = Select(targets=[Star()], from_table=Identifier(parts=list(parts), alias=Identifier('ta')))
+    q = Select(targets=[Star()], from_table=Join(left=inner, right=Identifier('m', alias=Identifier('tb')), join_type='join'))
+    try:
+        _, src = PlanJoinTSPredictorQuery(planner_for(cat)).adapt_dbt_query(q, integration)
+        return [str(p) for p in src.parts]
+    except Exception as e:
+        return ('EXC', exc_class(e))
 
 
 def model_table_info(js):
